@@ -1045,7 +1045,7 @@ func runWords(casesPath, tracePath string, par int) {
 }
 
 func main() {
-	mode := flag.String("mode", "flags", "flags|mix|thr|words")
+	mode := flag.String("mode", "flags", "flags|mix|thr|words|birth")
 	cases := flag.String("cases", "", "cases file")
 	out := flag.String("trace", "", "trace output")
 	par := flag.Int("par", 48, "cases in flight (thr)")
@@ -1062,6 +1062,8 @@ func main() {
 		runFlags(*cases, *out, true)
 	case "thr":
 		runThr(*cases, *out, *par)
+	case "birth":
+		runBirth(*out, *par)
 	case "words":
 		log.DefaultLogger.SetLogLevel(log.FATAL) // the placeholder host "domain:80" is looked up with the system resolver: noise
 		runWords(*cases, *out, *par)
